@@ -36,6 +36,14 @@ def run(res, tier, replay):
                 m.name = b"m%d_%s.%s" % (k, bytes(rng.choice(b"abcXY") for _ in range(3)), rng.choice([b"txt", b"bin", b"TXT"]))
                 m.attribs = rng.choice([0x20, 0x01, 0x40, 0x41, 0x21, 0x61, 0x00, 0x60]); m.date, m.time, dts[m.name] = valid_dt(rng)
             if any(f.method[0] == "qtm" and f.method[1] < 15 for f in c.folders): continue
+            # a further folder with an empty member between two others (its test digest must be that of the empty string, not a leftover)
+            if not isset:
+                xf = cabfmt.Folder(rng.choice([("none",), ("mszip",)]), [cabfmt.Member(b"x", data=b"abc" * rng.randrange(1, 50), length=None), cabfmt.Member(b"e", data=b""), cabfmt.Member(b"y", data=b"tail")])
+                for m in xf.members: m.length = len(m.data)
+                c.folders.append(xf); c.members.extend(xf.members)
+                for k, m in enumerate(c.members):
+                    m.name = b"m%d_%s.%s" % (k, bytes(rng.choice(b"abcXY") for _ in range(3)), rng.choice([b"txt", b"bin", b"TXT"]))
+                    if m.name not in dts: m.attribs = 0x20; m.date, m.time, dts[m.name] = valid_dt(rng)
             work = os.path.join(base, "w%d" % i); os.makedirs(work)
             if isset:
                 for f in c.folders: f.blocks = f.blocks
@@ -92,6 +100,15 @@ def run(res, tier, replay):
                         if (st.st_mode & 0o777) != pb: bad("mode of %s is %o, expected %o (attribs %#x, umask %o)" % (m.name, st.st_mode & 0o777, pb, m.attribs, um), detail, "c17:mode"); break
                         if int(st.st_mtime) != mt: bad("mtime of %s is %d, expected %d" % (m.name, int(st.st_mtime), mt), detail, "c17:mtime"); break
                 res.evaluations += 4; res.nontrivial.add((i, os.path.basename(start), pat, um)); res.count("set" if isset else "single")
+            # every member, no filter: the test mode's digests (empty members included) and the listing
+            if not isset:
+                r = subprocess.run([exe, "-t", paths[0]], capture_output=True, env=env, timeout=120); nruns += 1
+                got = re.findall(r"^  (\S+)  OK\s+([0-9a-f]{32})$", r.stdout.decode("latin1"), flags=re.M)
+                want = [(m.name.decode(), hashlib.md5(m.data).hexdigest()) for m in members]
+                if got != want or r.returncode != 0:
+                    k_ = next((k for k, (a_, b_) in enumerate(zip(got, want)) if a_ != b_), min(len(got), len(want)))
+                    bad("-t without a filter reports %s for member %d, expected %s (exit %d)" % (got[k_:k_ + 1], k_, want[k_:k_ + 1], r.returncode),
+                        "cabinet a.cab (hex): %s\nmembers: %s" % (open(paths[0], "rb").read().hex(), [(m.name, m.length) for m in members]), "c17:test-all")
             # exit status with a damaged member: corrupt data area of the last file
             bp = os.path.join(work, "bad.cab"); b = bytearray(open(paths[-1], "rb").read())
             if len(b) > 200 and not isset:
